@@ -217,6 +217,26 @@ PROPS["C15"] = {
     "level_note": LEVEL_NOTE_NOISE,
 }
 
+STACK_COMPONENTS = {
+    "mailbox: server.go (Server.Accept/Close), client.go (Client.Dial), server_conn.go, client_conn.go, grpc transport of client_transport.go, interface.go (connKit, MsgData), grpc_noise_conn.go, noise.go, conndata.go": "real code, instrumented copy of the working tree",
+    "gbn (all files)": "real code, instrumented copy of the working tree",
+    "hashmail relay (aperture)": "stub written from the hashmail API contract: named mailboxes with FIFO buffers, one reader / one writer per box, 'stream not found', 'stream occupied', AlreadyExists; seeded faults",
+    "gRPC/HTTP2 above the net.Conn": "stub: application loops Accept->ServerHandshake->serve->Close and Dial->ClientHandshake->transfer->Close with retry, writer and reader tasks per connection",
+    "websocket transport, TCP listener, grpc.Dial in NewServer/NewGrpcClient": "not executed (Server and Client are constructed in-package around the stub relay)",
+    "clock, timers, scheduling": "simulated",
+}
+PROPS["C05"] = {
+    "pkgs": ["mailbox"],
+    "level": "exploration",
+    "quick_budget": 80, "thorough_budget": 2400,
+    "rule": "Each run builds the whole stack (Server/Client, ServerConn/ClientConn with their retry loops, GBN with the production timeouts, NoiseGrpcConn at max version 0/1/2, auth payload 0..3000 B) over the stub relay. relay-faults: until a tape-chosen instant (5..64 s) the relay drops/delays messages, fails Recv/Send calls (killing the stream), fails NewCipherBox/RecvStream/SendStream, blocks Send (full mailbox); then it is reliable. Each connection instance writes a self-describing pseudo-random stream (plan up to 120 kB, 1 in 8 runs up to 1 MiB) in writes of 0..65535 bytes and verifies the peer's stream byte by byte; the client closes a completed connection and re-dials. Oracles: stream equality online; at heal + 20 virtual minutes a connection opened after the last fault has completed its transfer (otherwise 'silent stall' if nothing at all happened in the last third, 'no completion' if retries keep failing); every message the relay saw decodes as a GBN packet and no DATA payload contains a 16-byte window of application plaintext or of the auth payload." + SIG_RULE,
+    "assumptions": ["the relay is a model of aperture's hashmail server; behaviour of the real server that the model lacks is not covered", "'completes' is required of some connection opened after the last fault; earlier connections may fail visibly"],
+    "components": STACK_COMPONENTS,
+    "expected_probes": ["c05.transfer-complete-after-heal", "c05.reconnected", "c05.connection-failed-visibly"],
+    "level_text": EXPL_TEXT,
+    "level_note": "Trusts the Go runtime, testing/synctest, the instrumenter's rewrite and the relay model; scrypt runs at the repo's rpctest cost parameter.",
+}
+
 # Properties that are pure functions of their input: no schedule, clock, fault
 # or interleaving enters them, so deterministic simulation has nothing to decide.
 NOT_APPLICABLE = {
